@@ -3,8 +3,10 @@ package rules
 import (
 	"fmt"
 	"go/ast"
+	"go/constant"
 	"go/token"
 	"go/types"
+	"math"
 	"regexp"
 	"sort"
 	"strings"
@@ -1766,4 +1768,547 @@ func ruleSliceHeaderPreserved(c *ctx.Ctx, r *core.Reporter) {
 		return true
 	})
 	r.Check(len(missing) == 0 && short == "", "convert:header-fields", fn.Pos(), fmt.Sprintf("the converted slice takes $array, $offset, $length and $capacity from `%s`%s%s", param, ternary(len(missing) > 0, fmt.Sprintf(" (never reads %v)", missing), ""), ternary(short != "", " (`"+short+"` leaves the capacity to the freshly built header, i.e. the whole backing array: S(a[0:2:2]) has capacity 4 and append overwrites a[2])", "")))
+}
+
+// --- C13.signbit ---------------------------------------------------------------------------------------
+// math.Signbit and math.Copysign are overridden with float arithmetic (no bit access). Whether the test
+// they make is right can be decided on the seven sign classes of a float64, because the overlay only
+// compares with 0 and ±Inf and takes reciprocals, and all members of a class behave alike under those
+// operations: -Inf, negative finite, -0, +0, positive finite, +Inf (NaN is excluded: its sign is not
+// observable through arithmetic; recorded as an observation in DESIGN.md).
+
+type fval struct {
+	f  float64
+	b  bool
+	is byte // 'f' or 'b'
+}
+
+func evalGoFloat(e ast.Expr, env map[string]float64, funcs map[string]*ast.FuncDecl, depth int) (fval, bool) {
+	if depth > 6 {
+		return fval{}, false
+	}
+	switch x := e.(type) {
+	case *ast.ParenExpr:
+		return evalGoFloat(x.X, env, funcs, depth)
+	case *ast.BasicLit:
+		var f float64
+		if _, err := fmt.Sscanf(x.Value, "%g", &f); err != nil {
+			return fval{}, false
+		}
+		return fval{f: f, is: 'f'}, true
+	case *ast.Ident:
+		if v, ok := env[x.Name]; ok {
+			return fval{f: v, is: 'f'}, true
+		}
+		switch x.Name {
+		case "true":
+			return fval{b: true, is: 'b'}, true
+		case "false":
+			return fval{b: false, is: 'b'}, true
+		}
+		return fval{}, false
+	case *ast.UnaryExpr:
+		v, ok := evalGoFloat(x.X, env, funcs, depth)
+		if !ok {
+			return fval{}, false
+		}
+		switch {
+		case x.Op == token.NOT && v.is == 'b':
+			return fval{b: !v.b, is: 'b'}, true
+		case x.Op == token.SUB && v.is == 'f':
+			return fval{f: -v.f, is: 'f'}, true
+		}
+		return fval{}, false
+	case *ast.BinaryExpr:
+		l, ok1 := evalGoFloat(x.X, env, funcs, depth)
+		rr, ok2 := evalGoFloat(x.Y, env, funcs, depth)
+		if !ok1 || !ok2 || l.is != rr.is {
+			return fval{}, false
+		}
+		if l.is == 'b' {
+			switch x.Op {
+			case token.LOR:
+				return fval{b: l.b || rr.b, is: 'b'}, true
+			case token.LAND:
+				return fval{b: l.b && rr.b, is: 'b'}, true
+			case token.EQL:
+				return fval{b: l.b == rr.b, is: 'b'}, true
+			case token.NEQ:
+				return fval{b: l.b != rr.b, is: 'b'}, true
+			}
+			return fval{}, false
+		}
+		switch x.Op {
+		case token.LSS:
+			return fval{b: l.f < rr.f, is: 'b'}, true
+		case token.LEQ:
+			return fval{b: l.f <= rr.f, is: 'b'}, true
+		case token.GTR:
+			return fval{b: l.f > rr.f, is: 'b'}, true
+		case token.GEQ:
+			return fval{b: l.f >= rr.f, is: 'b'}, true
+		case token.EQL:
+			return fval{b: l.f == rr.f, is: 'b'}, true
+		case token.NEQ:
+			return fval{b: l.f != rr.f, is: 'b'}, true
+		case token.QUO:
+			return fval{f: l.f / rr.f, is: 'f'}, true
+		case token.MUL:
+			return fval{f: l.f * rr.f, is: 'f'}, true
+		case token.ADD:
+			return fval{f: l.f + rr.f, is: 'f'}, true
+		case token.SUB:
+			return fval{f: l.f - rr.f, is: 'f'}, true
+		}
+		return fval{}, false
+	case *ast.CallExpr:
+		id, ok := x.Fun.(*ast.Ident)
+		if !ok {
+			return fval{}, false
+		}
+		fd := funcs[id.Name]
+		if fd == nil || fd.Body == nil {
+			return fval{}, false
+		}
+		env2 := map[string]float64{}
+		for k, v := range env {
+			if k == "negInf" || k == "posInf" {
+				env2[k] = v
+			}
+		}
+		i := 0
+		for _, p := range fd.Type.Params.List {
+			for _, nm := range p.Names {
+				if i >= len(x.Args) {
+					return fval{}, false
+				}
+				a, ok := evalGoFloat(x.Args[i], env, funcs, depth+1)
+				if !ok || a.is != 'f' {
+					return fval{}, false
+				}
+				env2[nm.Name] = a.f
+				i++
+			}
+		}
+		return evalGoFloatBody(fd.Body.List, env2, funcs, depth+1)
+	}
+	return fval{}, false
+}
+
+// evalGoFloatBody runs a straight-line body of `if cond { return e }` and `return e` statements.
+func evalGoFloatBody(list []ast.Stmt, env map[string]float64, funcs map[string]*ast.FuncDecl, depth int) (fval, bool) {
+	for _, st := range list {
+		switch s := st.(type) {
+		case *ast.ReturnStmt:
+			if len(s.Results) != 1 {
+				return fval{}, false
+			}
+			return evalGoFloat(s.Results[0], env, funcs, depth)
+		case *ast.IfStmt:
+			if s.Init != nil {
+				return fval{}, false
+			}
+			c, ok := evalGoFloat(s.Cond, env, funcs, depth)
+			if !ok || c.is != 'b' {
+				return fval{}, false
+			}
+			if c.b {
+				if v, ok := evalGoFloatBody(s.Body.List, env, funcs, depth); ok {
+					return v, true
+				}
+				return fval{}, false
+			} else if s.Else != nil {
+				if blk, isBlk := s.Else.(*ast.BlockStmt); isBlk {
+					if v, ok := evalGoFloatBody(blk.List, env, funcs, depth); ok {
+						return v, true
+					}
+				}
+				return fval{}, false
+			}
+		default:
+			return fval{}, false
+		}
+	}
+	return fval{}, false
+}
+
+func ruleC13Signbit(c *ctx.Ctx, r *core.Reporter) {
+	r.Begin("C13.signbit", "F-CLASS", "the math.Signbit and math.Copysign overlays give the IEEE answer on every sign class of their operands (-Inf, negative, -0, +0, positive, +Inf)", 12)
+	nat := c.Natives()
+	funcs := map[string]*ast.FuncDecl{}
+	for _, f := range nat.PkgFiles("math") {
+		if f.Test {
+			continue
+		}
+		for _, d := range f.AST.Decls {
+			if x, ok := d.(*ast.FuncDecl); ok && x.Recv == nil {
+				funcs[x.Name.Name] = x
+			}
+		}
+	}
+	negZero := math.Copysign(0, -1)
+	classes := []struct {
+		name string
+		v    float64
+		neg  bool
+	}{{"-Inf", math.Inf(-1), true}, {"-1.5", -1.5, true}, {"-0", negZero, true}, {"+0", 0, false}, {"2.5", 2.5, false}, {"+Inf", math.Inf(1), false}}
+	base := map[string]float64{"negInf": math.Inf(-1), "posInf": math.Inf(1)}
+	if sb := funcs["Signbit"]; sb == nil || sb.Body == nil {
+		r.Info("signbit", nativesRootRel+"/math", "math.Signbit is not overridden")
+	} else {
+		p := sb.Type.Params.List[0].Names[0].Name
+		for _, cl := range classes {
+			env := map[string]float64{p: cl.v}
+			for k, v := range base {
+				env[k] = v
+			}
+			got, ok := evalGoFloatBody(sb.Body.List, env, funcs, 0)
+			key := "signbit@" + cl.name
+			if !ok || got.is != 'b' {
+				r.Undecided(key, nat.Pos(c, sb.Pos()), "the body of Signbit is outside the expression language of the evaluator (comparisons, arithmetic, calls of overlay functions made of if/return)")
+				continue
+			}
+			r.Check(got.b == cl.neg, key, nat.Pos(c, sb.Pos()), fmt.Sprintf("Signbit(%s) evaluates to %v (IEEE sign bit: %v)", cl.name, got.b, cl.neg))
+		}
+	}
+	if cs := funcs["Copysign"]; cs == nil || cs.Body == nil {
+		r.Info("copysign", nativesRootRel+"/math", "math.Copysign is not overridden")
+	} else {
+		var ps []string
+		for _, f := range cs.Type.Params.List {
+			for _, nm := range f.Names {
+				ps = append(ps, nm.Name)
+			}
+		}
+		if len(ps) != 2 {
+			r.Undecided("copysign", nat.Pos(c, cs.Pos()), "unexpected parameter list")
+			return
+		}
+		for _, a := range classes {
+			bad := ""
+			undecided := false
+			for _, b := range classes {
+				env := map[string]float64{ps[0]: a.v, ps[1]: b.v}
+				for k, v := range base {
+					env[k] = v
+				}
+				got, ok := evalGoFloatBody(cs.Body.List, env, funcs, 0)
+				if !ok || got.is != 'f' {
+					undecided = true
+					break
+				}
+				if math.Signbit(got.f) != b.neg || math.Abs(got.f) != math.Abs(a.v) {
+					bad += fmt.Sprintf(" Copysign(%s, %s) = %v;", a.name, b.name, got.f)
+				}
+			}
+			key := "copysign@" + a.name
+			if undecided {
+				r.Undecided(key, nat.Pos(c, cs.Pos()), "the body of Copysign is outside the expression language of the evaluator")
+				continue
+			}
+			r.Check(bad == "", key, nat.Pos(c, cs.Pos()), "Copysign("+a.name+", y) has the magnitude of x and the sign of y for y in every sign class"+ternary(bad != "", " — wrong:"+bad, ""))
+		}
+	}
+}
+
+// ruleC11ParseFloat: a JavaScript number handed to Go as a float is that number. $parseFloat must return a
+// Number operand itself: the string round trip of the host parseFloat loses the sign of zero
+// (parseFloat(String(-0)) is 0).
+func ruleC11ParseFloat(c *ctx.Ctx, r *core.Reporter) {
+	r.Begin("C11.parse-float", "F-MUST", "$parseFloat returns its operand unchanged when it is a Number, before anything converts it to a string", 1)
+	if !needPrelude(c, r) {
+		return
+	}
+	decl := c.PreludeDecls()["$parseFloat"]
+	if len(decl) == 0 {
+		r.Undecided("$parseFloat", "compiler/prelude/numeric.js", "not declared")
+		return
+	}
+	fn := c.PreludeFunc("$parseFloat")
+	if fn == nil || !fn.IsFunc() {
+		r.Violation("number-passes-through", "compiler/prelude/numeric.js", "$parseFloat is not a function of its own (an alias of the host parseFloat converts its operand to a string first: -0 comes back as +0)")
+		return
+	}
+	param := ""
+	if ps := fn.L("params"); len(ps) > 0 {
+		param = ps[0].IdentName()
+	}
+	ok := false
+	fn.Walk(func(x *ctx.JSNode) bool {
+		if !x.Is("IfStatement") {
+			return true
+		}
+		t := squash(x.N("test").Src())
+		isNumTest := strings.Contains(t, param+".constructor===Number") || strings.Contains(t, "typeof "+param+"===\"number\"") || strings.Contains(t, "typeof"+param+"===\"number\"")
+		if !isNumTest {
+			return true
+		}
+		x.N("consequent").Walk(func(y *ctx.JSNode) bool {
+			if y.Is("ReturnStatement") && y.N("argument").IdentName() == param {
+				ok = true
+			}
+			return true
+		})
+		return true
+	})
+	r.Check(ok, "number-passes-through", fn.Pos(), "under a test that the operand is a Number, $parseFloat returns the operand itself")
+}
+
+// ruleC12ObjectResolution: pruneImports decides that an identifier refers to an import by `Obj == nil`
+// (an unresolved name). That is only meaningful for files parsed WITH object resolution: every file the
+// build package parses for augmentation must not be parsed with parser.SkipObjectResolution.
+func ruleC12ObjectResolution(c *ctx.Ctx, r *core.Reporter) {
+	r.Begin("C12.object-resolution", "F-PAIR", "package build reads ast.Ident.Obj (pruneImports); none of its parser.ParseFile calls sets parser.SkipObjectResolution", 2)
+	p := c.Pkg("build")
+	if p == nil {
+		r.Undecided("pkg", "build", "not loaded")
+		return
+	}
+	info := p.TypesInfo
+	readsObj := token.NoPos
+	for _, fd := range c.AllFuncDecls("build") {
+		if fd.Body == nil || c.IsTestFile(fd.Pos()) {
+			continue
+		}
+		ast.Inspect(fd.Body, func(x ast.Node) bool {
+			if se, ok := x.(*ast.SelectorExpr); ok && se.Sel.Name == "Obj" {
+				if tv, ok := info.Types[se.X]; ok && strings.HasSuffix(tv.Type.String(), "ast.Ident") && readsObj == token.NoPos {
+					readsObj = se.Pos()
+				}
+			}
+			return true
+		})
+	}
+	if readsObj == token.NoPos {
+		r.Info("reads-obj", "build", "package build no longer reads ast.Ident.Obj: the parse mode is free")
+		return
+	}
+	var skipBit int64 = -1
+	for _, imp := range p.Imports {
+		if imp.PkgPath == "go/parser" && imp.Types != nil {
+			if o, ok := imp.Types.Scope().Lookup("SkipObjectResolution").(*types.Const); ok {
+				if v, exact := constantInt64(o); exact {
+					skipBit = v
+				}
+			}
+		}
+	}
+	if skipBit < 0 {
+		r.Undecided("skip-bit", "go/parser", "parser.SkipObjectResolution not found")
+		return
+	}
+	n := 0
+	for _, fd := range c.AllFuncDecls("build") {
+		if fd.Body == nil || c.IsTestFile(fd.Pos()) {
+			continue
+		}
+		ast.Inspect(fd.Body, func(x ast.Node) bool {
+			ce, ok := x.(*ast.CallExpr)
+			if !ok || len(ce.Args) != 4 {
+				return true
+			}
+			se, ok := ce.Fun.(*ast.SelectorExpr)
+			if !ok || se.Sel.Name != "ParseFile" || exprStr(se.X) != "parser" {
+				return true
+			}
+			n++
+			tv := info.Types[ce.Args[3]]
+			key := fmt.Sprintf("parse-mode:%s#%d", ctx.FuncName(fd), n)
+			if tv.Value == nil {
+				r.Undecided(key, c.Pos(ce.Pos()), "the parse mode `"+exprStr(ce.Args[3])+"` is not a constant")
+				return true
+			}
+			mode, _ := constantValueInt64(tv.Value)
+			r.Check(mode&skipBit == 0, key, c.Pos(ce.Pos()), fmt.Sprintf("parser.ParseFile(…, %s) (mode %d) resolves objects; %s relies on Ident.Obj == nil meaning `refers to an import`", exprStr(ce.Args[3]), mode, c.Pos(readsObj)))
+			return true
+		})
+	}
+	r.Check(n >= 2, "sites", "build/build.go", fmt.Sprintf("%d parser.ParseFile call(s) in package build", n))
+}
+
+// ruleC20PrepareNoAlias: prepareFile returns "a modified copy" — a shallow copy of the *ast.File whose slices
+// still share their backing arrays with the original. Filtering such a slice in place (x := f.Comments[:0];
+// append(x, …)) rewrites the original file, which the build that fills the cache goes on to compile.
+func ruleC20PrepareNoAlias(c *ctx.Ctx, r *core.Reporter) {
+	r.Begin("C20.prepare-no-alias", "F-WHO", "prepareFile never appends to (or stores through an index of) a slice that was obtained by slicing a field of its argument", 1)
+	fd := c.FuncDecl("compiler/sources", "prepareFile")
+	if fd == nil {
+		r.Undecided("prepareFile", "compiler/sources/serializer.go", "not found")
+		return
+	}
+	param := ""
+	if len(fd.Type.Params.List) > 0 && len(fd.Type.Params.List[0].Names) > 0 {
+		param = fd.Type.Params.List[0].Names[0].Name
+	}
+	// locals that alias a field's backing array: v := <param>.<F>[…]  or  v := <param>.<F>
+	alias := map[string]string{}
+	ast.Inspect(fd.Body, func(x ast.Node) bool {
+		as, ok := x.(*ast.AssignStmt)
+		if !ok {
+			return true
+		}
+		for i, l := range as.Lhs {
+			id, ok := l.(*ast.Ident)
+			if !ok || i >= len(as.Rhs) {
+				continue
+			}
+			rhs := ast.Unparen(as.Rhs[i])
+			if sl, ok := rhs.(*ast.SliceExpr); ok {
+				rhs = ast.Unparen(sl.X)
+			} else if _, isSel := rhs.(*ast.SelectorExpr); !isSel {
+				continue
+			}
+			if se, ok := rhs.(*ast.SelectorExpr); ok && exprStr(se.X) == param {
+				if tv, ok := c.Pkg("compiler/sources").TypesInfo.Types[se]; ok {
+					if _, isSlice := tv.Type.Underlying().(*types.Slice); isSlice {
+						alias[id.Name] = exprStr(as.Rhs[i])
+					}
+				}
+			}
+		}
+		return true
+	})
+	bad := ""
+	ast.Inspect(fd.Body, func(x ast.Node) bool {
+		switch s := x.(type) {
+		case *ast.CallExpr:
+			if id, ok := s.Fun.(*ast.Ident); ok && id.Name == "append" && len(s.Args) > 0 {
+				if a, ok := ast.Unparen(s.Args[0]).(*ast.Ident); ok && alias[a.Name] != "" {
+					bad = "append(" + a.Name + ", …) with " + a.Name + " := " + alias[a.Name]
+				}
+				if sl, ok := ast.Unparen(s.Args[0]).(*ast.SliceExpr); ok {
+					if se, ok := ast.Unparen(sl.X).(*ast.SelectorExpr); ok && exprStr(se.X) == param {
+						bad = "append(" + exprStr(s.Args[0]) + ", …)"
+					}
+				}
+			}
+		case *ast.AssignStmt:
+			for _, l := range s.Lhs {
+				if ix, ok := l.(*ast.IndexExpr); ok {
+					if a, ok := ast.Unparen(ix.X).(*ast.Ident); ok && alias[a.Name] != "" {
+						bad = a.Name + "[…] = … with " + a.Name + " := " + alias[a.Name]
+					}
+				}
+			}
+		}
+		return true
+	})
+	r.Check(bad == "", "no-write-through-alias", c.Pos(fd.Pos()), "the slices of the original file are only read"+ternary(bad != "", " (found `"+bad+"`: the copy made by `copy := *file` shares the backing arrays, so this rewrites the comment list of the file that is about to be compiled)", ""))
+}
+
+func constantValueInt64(v constant.Value) (int64, bool) {
+	if v == nil {
+		return 0, false
+	}
+	return constant.Int64Val(constant.ToInt(v))
+}
+
+func constantInt64(o *types.Const) (int64, bool) { return constantValueInt64(o.Val()) }
+
+// ruleNarrowShift: `b[1]<<8` with b[1] a byte is 0 — the shift is done in the operand's type. In the codecs of
+// the hint stream and the build cache a constant shift count that reaches the width of its operand's type
+// silently drops the bits it was meant to move.
+func ruleNarrowShift(c *ctx.Ctx, r *core.Reporter) {
+	r.Begin("C19.narrow-shift", "F-CONST", "no constant left shift in the hint codec, the source serializer or the build cache moves all bits of its operand's type out (shift count >= width of a sized integer operand)", 1)
+	n := 0
+	for _, rel := range []string{"internal/sourcemapx", "compiler/sources", "build/cache"} {
+		p := c.Pkg(rel)
+		if p == nil {
+			continue
+		}
+		for _, f := range p.Syntax {
+			if c.IsTestFile(f.Pos()) {
+				continue
+			}
+			ast.Inspect(f, func(x ast.Node) bool {
+				be, ok := x.(*ast.BinaryExpr)
+				if !ok || be.Op != token.SHL {
+					return true
+				}
+				cnt, ok := constantValueInt64(p.TypesInfo.Types[be.Y].Value)
+				if !ok || p.TypesInfo.Types[be.X].Value != nil {
+					return true
+				}
+				bt, ok := p.TypesInfo.Types[be.X].Type.Underlying().(*types.Basic)
+				if !ok {
+					return true
+				}
+				width := int64(0)
+				switch bt.Kind() {
+				case types.Int8, types.Uint8:
+					width = 8
+				case types.Int16, types.Uint16:
+					width = 16
+				case types.Int32, types.Uint32:
+					width = 32
+				case types.Int64, types.Uint64:
+					width = 64
+				default:
+					return true
+				}
+				n++
+				r.Check(cnt < width, fmt.Sprintf("shift:%s#%d", rel, n), c.Pos(be.Pos()), fmt.Sprintf("`%s`: a %s shifted left by %d%s", exprStr(be), bt.Name(), cnt, ternary(cnt >= width, " is always 0 — widen the operand first", "")))
+				return true
+			})
+		}
+	}
+	r.Check(true, "scanned", "internal/sourcemapx", fmt.Sprintf("%d constant left shifts of sized integers examined", n))
+}
+
+// ruleC17SortKey: the files of a package are ordered by name so that the output does not depend on the order
+// they were listed in. The key has to be unique per file: the name the file was added to the FileSet with.
+// FileSet.Position honours //line directives, which let several (generated) files claim the same name;
+// a stable sort then keeps ties in listing order.
+func ruleC17SortKey(c *ctx.Ctx, r *core.Reporter) {
+	r.Begin("C17.sort-key", "F-KEY", "the sort key of Sources.Sort is the physical file name (FileSet.File(pos).Name()), not a position adjusted by //line directives", 1)
+	p := c.Pkg("compiler/sources")
+	if p == nil {
+		r.Undecided("pkg", "compiler/sources", "not loaded")
+		return
+	}
+	sortFd := c.FuncDecl("compiler/sources", "Sources.Sort")
+	if sortFd == nil {
+		r.Undecided("Sources.Sort", "compiler/sources/sources.go", "not found")
+		return
+	}
+	// the functions the comparator calls (one level), plus Sort itself
+	bodies := []*ast.FuncDecl{sortFd}
+	ast.Inspect(sortFd.Body, func(x ast.Node) bool {
+		if ce, ok := x.(*ast.CallExpr); ok {
+			if se, ok := ce.Fun.(*ast.SelectorExpr); ok {
+				if fd := c.FuncDecl("compiler/sources", "Sources."+se.Sel.Name); fd != nil && fd != sortFd {
+					bodies = append(bodies, fd)
+				}
+			}
+		}
+		return true
+	})
+	physical, adjusted := 0, ""
+	for _, fd := range bodies {
+		ast.Inspect(fd.Body, func(x ast.Node) bool {
+			ce, ok := x.(*ast.CallExpr)
+			if !ok {
+				return true
+			}
+			se, ok := ce.Fun.(*ast.SelectorExpr)
+			if !ok {
+				return true
+			}
+			tv, ok := p.TypesInfo.Types[se.X]
+			if !ok {
+				return true
+			}
+			ts := tv.Type.String()
+			switch {
+			case strings.HasSuffix(ts, "token.File") && se.Sel.Name == "Name":
+				physical++
+			case strings.HasSuffix(ts, "token.FileSet") && se.Sel.Name == "Position":
+				adjusted = exprStr(ce)
+			case strings.HasSuffix(ts, "token.FileSet") && se.Sel.Name == "PositionFor" && len(ce.Args) == 2 && exprStr(ce.Args[1]) != "false":
+				adjusted = exprStr(ce)
+			}
+			return true
+		})
+	}
+	r.Check(physical >= 1 && adjusted == "", "sort-key:physical-name", c.Pos(sortFd.Pos()), "files are compared by token.File.Name()"+ternary(adjusted != "", " (found `"+adjusted+"`: the adjusted position takes its file name from //line directives, so two files can tie and keep their listing order)", ""))
 }
